@@ -114,4 +114,14 @@ PROPS["C11"] = {
     "level_note": "Trusted: Coq kernel/vm_compute; Model/Sinks.v validated on explored cases; exact arithmetic (float rounding not modelled).",
 }
 
+PROPS["C05"] = {
+    "translator": True,
+    "corr": "Model.Convolve.{conv_step,normalized,delay_step} vs convolve::Convolve::{filter,normalized,config_ref} and delay::Delay::filter; Savitzky-Golay tables re-extracted from the source text (translator/tables.py) and from the compiled presets (config_ref, exact rationals from float bits)",
+    "rule": "Convolve<Rat,N> via with_config and via normalized: all coefficient vectors over {-1,0,1,2} for N<=3 (incl. zero sum) x all signals over {-1,0,3} of the tier's length, seeded random rational kernels for N up to 8 (16 thorough); Delay<i64,N> for N in {0..6,16} over all short signals over {1,2,5} plus random; the 26 compiled Savitzky-Golay coefficient vectors (13 widths x f32/f64); 14 regenerated table obligations (13 tables + the width list); non-trivial = signal longer than the kernel, kernel length >= 2 (delay: N < length), first sample non-zero (Check/C05.v)",
+    "trusted": _RAT + ["translator/tables.py (regex over macro invocations, decimal literal -> fraction)", "float bits -> rational conversion in harness/src/props/conv.rs", "model of circular_buffer::push_back as a bounded list"],
+    "assumptions": ["normalized: unit gain needs a non-zero coefficient sum", "Savitzky-Golay ramps: n >= N-1 (window filled)"],
+    "level_text": "Theorems for every coefficient vector, width (N >= 0) and signal: the push-until-evict loop terminates within its fuel and output n is sum_j c[j] x[n-j] with edge padding; linearity and exact shift-invariance of that sum; unit gain of the normalising constructor (and untouched coefficients for zero sum); delay output x[max(n-N,0)] for any sample type; the exact least-squares end-point coefficients reproduce constants and ramps exactly and any table within 5e-6 of them does so to a stated bound. The 13 preset tables are re-extracted from the Rust source on every run and proved (vm_compute, finite) to be within 5e-6 of the least-squares coefficients; the coefficients the compiled code holds are checked against the same bound.",
+    "level_note": "Trusted: Coq kernel/vm_compute; Model/Convolve.v validated on explored cases; table translator; exact arithmetic (float rounding of the running products not modelled).",
+}
+
 NOT_YET = {}
